@@ -34,8 +34,8 @@ func (ex *Exec) call(st *State, fr *Frame, ins ssa.Instruction, c *ssa.CallCommo
 		ex.callFunc(st, fr, ins, fv.Fn, fv.Bind, args, dst, c)
 		return
 	}
-	// unknown function value
-	ex.havocCall(st, fr, ins, "dynamic", c.Signature(), args, dst, true)
+	// unknown function value: named after the expression that is called (a parameter, a field, ...)
+	ex.havocCall(st, fr, ins, "dyn:"+ssaText(c.Value, 0), c.Signature(), args, dst, true)
 }
 
 func (ex *Exec) setResult(st *State, fr *Frame, dst ssa.Value, v Value) {
@@ -55,6 +55,9 @@ func (ex *Exec) callFunc(st *State, fr *Frame, ins ssa.Instruction, f *ssa.Funct
 	if m := ex.externModel(name); m != nil && m.Apply != nil {
 		res, handled := m.Apply(ex, st, fr, ins, args)
 		if handled {
+			if _, pushed := res.(pushedFrame); pushed {
+				return
+			}
 			if !st.Dead {
 				ex.setResult(st, fr, dst, res)
 				ex.event(st, &Event{Callee: name, Args: args, Results: tupleElems(res), Instr: ins, Fn: fr.Fn, Kind: "call"})
@@ -120,6 +123,9 @@ func (ex *Exec) doReturn(st *State, fr *Frame, res Value) {
 	}
 	st.Frames = st.Frames[:len(st.Frames)-1]
 	caller := st.Top()
+	if fr.OnReturn != nil {
+		res = fr.OnReturn(ex, st, res)
+	}
 	if fr.IsDeferCall {
 		// result of a deferred call is discarded; continue running defers of the caller
 		ex.runDefers(st, caller)
@@ -127,6 +133,10 @@ func (ex *Exec) doReturn(st *State, fr *Frame, res Value) {
 	}
 	if fr.retDst != nil {
 		caller.Locals[fr.retDst] = res
+	}
+	if fr.CalleeName != "" {
+		ex.event(st, &Event{Callee: fr.CalleeName, Args: fr.CallArgs, Results: tupleElems(res), Instr: fr.Call, Fn: caller.Fn, Kind: "call"})
+		return
 	}
 	ex.event(st, &Event{Callee: fr.Fn.String(), Args: fr.Args, Results: tupleElems(res), Instr: fr.Call, Fn: caller.Fn, Kind: "call"})
 }
@@ -226,6 +236,7 @@ func (ex *Exec) havocReach(st *State, v Value, seen map[*Object]bool) {
 		}
 		st.Depth++
 		st.Heap[x.Obj] = ex.writePath(st, root, x.Path, ex.G.Fresh(t, "havoc_"+sanitize(x.Obj.Name)), x.Obj.Typ)
+		ex.markWritten(st, x.Obj)
 		ex.havocReach(st, old, seen)
 	case *SliceV:
 		if x.Obj == nil || seen[x.Obj] {
@@ -258,6 +269,7 @@ func (ex *Exec) havocReach(st *State, v Value, seen map[*Object]bool) {
 			return
 		}
 		st.Heap[x.Obj] = ex.writePath(st, root, x.Path, nv, x.Obj.Typ)
+		ex.markWritten(st, x.Obj)
 	case *MapV:
 		if x.Obj == nil || seen[x.Obj] {
 			return
@@ -265,6 +277,7 @@ func (ex *Exec) havocReach(st *State, v Value, seen map[*Object]bool) {
 		seen[x.Obj] = true
 		st.Depth++
 		st.Heap[x.Obj] = ex.G.FreshMapState(x.T, "havoc_map")
+		ex.markWritten(st, x.Obj)
 	case *StructV:
 		for _, f := range x.F {
 			ex.havocReach(st, f, seen)
@@ -339,7 +352,13 @@ func (ex *Exec) invoke(st *State, fr *Frame, ins ssa.Instruction, c *ssa.CallCom
 			ts = append(ts, t)
 		}
 		if okAll {
-			res = ex.ufResults(sig, "m_"+sanitize(shortName(name)), ts)
+			// a method of the same dynamic value is the same function whatever interface type it is called through
+			fname := "p_" + c.Method.Name()
+			if kind == "global" {
+				// one function per method name: every implementation of this interface method is the same function
+				fname = "g_" + c.Method.Name()
+			}
+			res = ex.ufResults(sig, fname, ts)
 		} else {
 			res = ex.freshResults(sig, sanitize(shortName(name)))
 		}
@@ -350,6 +369,18 @@ func (ex *Exec) invoke(st *State, fr *Frame, ins ssa.Instruction, c *ssa.CallCom
 			ex.havocReach(st, a, map[*Object]bool{})
 		}
 		res = ex.freshResults(sig, sanitize(shortName(name)))
+	}
+	// A4: a signer's signature verifies against its own address: Verify(m, Sign(m).sig, Sign(m).digest, Address()) == nil
+	if kind == "pure" && c.Method.Name() == "Sign" && iv != nil && len(args) == 1 {
+		if tv, ok := res.(*TupleV); ok && len(tv.E) == 2 {
+			msg, ok1 := ex.argTerm(st, args[0])
+			dig, ok2 := tv.E[0].(*Term)
+			sig, ok3 := ex.argTerm(st, tv.E[1])
+			if ok1 && ok2 && ok3 {
+				addr := App("p_Address_r0", SB, iv.ID)
+				st.Assume(Eq(App("g_Verify_r0", SInt, msg, sig, dig, addr), IntC(0)))
+			}
+		}
 	}
 	ex.setResult(st, fr, dst, res)
 	ex.event(st, &Event{Callee: name, Args: append([]Value{recv}, args...), Results: tupleElems(res), Instr: ins, Fn: fr.Fn, Kind: "call"})
